@@ -202,6 +202,15 @@ class Constant(Expression):
     def __init__(self, value: float | int | ArrayLike) -> None:
         self._hash = None
         self.value = np.asarray(value) if not isinstance(value, (int, float)) else value
+        if (
+            isinstance(self.value, np.ndarray)
+            and self.value.ndim == 0
+            and self.value.dtype.kind in "ui"
+        ):
+            # A fixed-width integer scalar (np.uint8(3), an element of an integer
+            # array) computes in its own width: -np.uint8(3) is 253. Keep the exact
+            # value as a Python int instead.
+            self.value = int(self.value)
 
     def evaluate(
         self, values: Mapping[str, ArrayLike | float]
